@@ -10,7 +10,7 @@ SPEC = os.path.join(ROOT, 'spec')
 HARNESS = os.path.join(ROOT, 'harness')
 H2TV = os.path.join(HARNESS, 'target', 'release', 'h2tv')
 WORK = os.path.join(ROOT, 'work')
-EVID = os.path.join(ROOT, 'evidence')
+EVID = os.environ.get('VERIF_EVIDENCE_DIR') or os.path.join(ROOT, 'evidence')     # (selftest writes elsewhere)
 JARS = '/opt/veriftools/tla/tla2tools.jar:/opt/veriftools/tla/CommunityModules-deps.jar'
 NPROC = 8
 
